@@ -311,10 +311,23 @@ func observe(ps []*proc, tag string) {
 	}
 }
 
+// datasets alternate between the euclidean and the manhattan metric (both are written to and searched with a
+// zero query); createDesc creates one with a given dimension and metric (cosine datasets are never searched)
+var createSeq int
+
+func nextSpace() pb.Space {
+	createSeq++
+	if createSeq%2 == 0 {
+		return pb.Space_Manhattan
+	}
+	return pb.Space_Euclidean
+}
+
 func createRetry(p *proc, parts, repl, tries int) string {
 	for i := 0; i < tries-1; i++ {
 		ctx, cancel := context.WithTimeout(context.Background(), 5*time.Second)
-		d, err := pb.NewDatasetManagerClient(p.conn).Create(ctx, &pb.Dataset{Dimension: 3, Space: pb.Space_Euclidean, PartitionCount: uint32(parts), ReplicationFactor: uint32(repl)})
+		sp := nextSpace()
+		d, err := pb.NewDatasetManagerClient(p.conn).Create(ctx, &pb.Dataset{Dimension: 3, Space: sp, PartitionCount: uint32(parts), ReplicationFactor: uint32(repl)})
 		cancel()
 		if err == nil {
 			id, _ := uuid.FromBytes(d.GetId())
@@ -323,7 +336,7 @@ func createRetry(p *proc, parts, repl, tries int) string {
 				pid, _ := uuid.FromBytes(pt.GetId())
 				pids = append(pids, pid.String())
 			}
-			emit(event{"ev": "create", "via": p.id, "ok": 1, "id": id.String(), "err": "", "parts": pids})
+			emit(event{"ev": "create", "via": p.id, "ok": 1, "id": id.String(), "err": "", "parts": pids, "dim": 3, "space": int(sp)})
 			return id.String()
 		}
 		time.Sleep(700 * time.Millisecond)
@@ -331,12 +344,14 @@ func createRetry(p *proc, parts, repl, tries int) string {
 	return create(p, parts, repl)
 }
 
-func create(p *proc, parts, repl int) string {
+func create(p *proc, parts, repl int) string { return createDesc(p, parts, repl, 3, nextSpace()) }
+
+func createDesc(p *proc, parts, repl, dim int, sp pb.Space) string {
 	ctx, cancel := context.WithTimeout(context.Background(), 5*time.Second)
 	defer cancel()
-	d, err := pb.NewDatasetManagerClient(p.conn).Create(ctx, &pb.Dataset{Dimension: 3, Space: pb.Space_Euclidean, PartitionCount: uint32(parts), ReplicationFactor: uint32(repl)})
+	d, err := pb.NewDatasetManagerClient(p.conn).Create(ctx, &pb.Dataset{Dimension: uint32(dim), Space: sp, PartitionCount: uint32(parts), ReplicationFactor: uint32(repl)})
 	if err != nil {
-		emit(event{"ev": "create", "via": p.id, "ok": 0, "id": "", "err": err.Error(), "parts": []string{}})
+		emit(event{"ev": "create", "via": p.id, "ok": 0, "id": "", "err": err.Error(), "parts": []string{}, "dim": dim, "space": int(sp)})
 		return ""
 	}
 	id, _ := uuid.FromBytes(d.GetId())
@@ -345,7 +360,7 @@ func create(p *proc, parts, repl int) string {
 		pid, _ := uuid.FromBytes(pt.GetId())
 		pids = append(pids, pid.String())
 	}
-	emit(event{"ev": "create", "via": p.id, "ok": 1, "id": id.String(), "err": "", "parts": pids})
+	emit(event{"ev": "create", "via": p.id, "ok": 1, "id": id.String(), "err": "", "parts": pids, "dim": dim, "space": int(sp)})
 	return id.String()
 }
 
@@ -591,7 +606,7 @@ func main() {
 	observe(ps, "join")
 	d1 := create(a, 2, 2)
 	observe(ps, "create")
-	d2 := create(b, 1, 3)
+	d2 := createDesc(b, 1, 3, 5, pb.Space_Cosine)
 	observe(ps, "create")
 	if d1 != "" {
 		del(c, d1)
